@@ -62,7 +62,10 @@ def gValid : Nat := 1004
 def req (f : Nat) : List Nat :=
   if f = Gen.Eff.id_CreateAllocation ∨ f = Gen.Eff.id_CreateReservation ∨ f = Gen.Eff.id_SetResponseCache then [gAuth]
   else if f = Gen.Eff.id_Refresh ∨ f = Gen.Eff.id_DeleteAllocation then [gAuth, gOwner]
-  else if f = Gen.Eff.id_AddPermission then [gAuth, gOwner, gFamily, gGrant]
+  -- CreatePermission builds the permissions of all its peers first (`NewPermission`, per peer, after the family test and the
+  -- permission handler) and installs them (`AddPermission`) only when every peer was accepted
+  else if f = Gen.Eff.id_NewPermission then [gAuth, gOwner, gFamily, gGrant]
+  else if f = Gen.Eff.id_AddPermission then [gAuth, gOwner]
   else if f = Gen.Eff.id_AddChannelBind then [gAuth, gOwner, gValid, gFamily, gGrant]
   else if f = Gen.Eff.id_CreateTCPConnection then [gAuth, gOwner, gGrant]
   else if f = Gen.Eff.id_GetTCPConnection then [gAuth]
